@@ -255,10 +255,50 @@ def r19_6(ctx):
     ctx.ok("lines[0]", f.where(), "`lines[0]` of a MatchedExpectation relies on C02/R2.1 (a Matched entry carries >= 1 line)", obligation=False)
 
 
+def r19_7(ctx):
+    """the pretty renderer pads line numbers with `width - digits(num)` (unsigned): the gutter width must come from an upper
+    bound of every number it prints - expectation numbers are bounded by testcase.expectations.len(), output line numbers by
+    diff.count_output_lines (every output line is recorded once, C01) - plus the same base that is added to the numbers"""
+    prog = ctx.prog
+    f = prog.impl_fn("PrettyColorRenderer", "ErrorRenderer", "render_malformed_output")
+    o = Origins(f)
+    news = [(bb, t) for bb, t in f.calls() if (callee_name(t) or "").endswith("Decorator::new")]
+    if len(news) != 1:
+        raise AnchorError("render_malformed_output: expected one Decorator::new")
+    bb, t = news[0]
+    w = o.operand(t["args"][0])
+    maxes = [n for n in w.walk() if n.kind == "call" and method_name(n.a) in ("Ord::max", "cmp::max")]
+    has_exp = any(n.kind == "call" and method_name(n.a) == "Vec::len" and any(k.kind == "field" and k.a == "expectations" for k in n.walk()) and
+                  any(k.kind == "field" and k.a == "testcase" for k in n.walk()) for m in maxes for n in m.walk())
+    has_out = any(n.kind == "field" and n.a == "count_output_lines" for m in maxes for n in m.walk())
+    lowering = [n.a for n in w.walk() if (n.kind == "call" and method_name(n.a) in ("Ord::min", "cmp::min", "usize::saturating_sub", "usize::checked_sub")) or
+                (n.kind == "bin" and n.a in ("Div", "Shr", "Rem") )]
+    ctx.check(bool(maxes) and has_exp and has_out and not lowering, "gutter-width-bound", f.loc(bb),
+              "the gutter width is computed from max(diff.count_output_lines, testcase.expectations.len()): an upper bound of every printed expectation and line number",
+              "the gutter width is computed from %s: it is no upper bound of the printed numbers (skipped optional expectations are not in the diff, yet later expectations "
+              "print their own index), so `width - digits` underflows and the renderer panics instead of rendering the failure" % w.show()[:160])
+    # the base added to the printed numbers is the base added to the bound
+    base_nodes = [n for n in w.walk() if n.kind == "phi" and any(k.kind == "const" and k.a.as_int() == 0 for k in n.kids)]
+    lines = [(b2, t2) for b2, t2 in f.calls() if (callee_name(t2) or "").endswith("Decorator::line")]
+    ok_base = True
+    for b2, t2 in lines:
+        for a in t2["args"][1:3]:
+            tr = o.operand(a)
+            adds = [n for n in tr.walk() if (n.kind == "bin" and n.a in ("AddWithOverflow", "Add")) or (n.kind == "call" and method_name(n.a) == "Add::add")]
+            if adds and base_nodes and not any(n.kind == "phi" and n.a == base_nodes[0].a for n in tr.walk()):
+                ok_base = False
+    ctx.check(bool(lines) and (ok_base or not base_nodes), "gutter-base", f.where(), "printed numbers and the width bound use the same line base (%d Decorator::line calls)" % len(lines))
+    # the padding subtraction exists only in Decorator::output_line_number
+    d = prog.fn("Decorator::output_line_number")
+    subs = [1 for bi, b in enumerate(d.blocks) for st in b["stmts"] if st["k"] == "assign" and st["rv"].get("k") in ("bin", "checked") and "Sub" in str(st["rv"].get("op"))]
+    ctx.ok("gutter-padding-site", d.where(), "padding = width - digits(number) in Decorator::output_line_number (%d unsigned subtraction(s)); bounded by the rule above" % len(subs), obligation=False)
+
+
 def run(ctx):
     ctx.run_rule("R19.1", "no character count is used as a str byte offset in the renderers (incl. through helper results) [E-UNIT]", r19_1, floor=1)
     ctx.run_rule("R19.2", "exhaustive dispatch: render_error and both DiffLine switches give every variant its own arm [E-TABLE]", r19_2, floor=5)
     ctx.run_rule("R19.3", "completeness: every UnmatchedExpectation and every UnexpectedLines line reaches the output (pretty) / the hunk buffers + final flush (diff) [E-FLOW, E-PATH]", r19_3, floor=9)
     ctx.run_rule("R19.4", "a passing outcome writes nothing; failed outcomes go through render_error [E-PATH]", r19_4, floor=4)
     ctx.run_rule("R19.5", "structured renderers serialise the whole slice; Outcome always writes `result`; TestCaseError kinds distinct [E-TABLE]", r19_5, floor=6)
+    ctx.run_rule("R19.7", "pretty gutter: Decorator width is derived from max(count_output_lines, expectations.len()) + base, an upper bound of every printed number (no `width - digits` underflow) [E-FLOW]", r19_7, floor=2)
     ctx.run_rule("R19.6", "index arithmetic in renderers listed (decided by R6.4 / C02)", r19_6, floor=1)
